@@ -50,14 +50,15 @@ class Ctx:
         return t
 
 
-def owned(ctx):
-    """Abstract TooDee<T>: returns (Ref to struct value, dict)."""
-    C, R, L = ctx.int("cols"), ctx.int("rows"), ctx.int("len")
+def owned(ctx, pfx="", buf="parent"):
+    """Abstract TooDee<T>: returns (Ref to struct value, dict). `pfx`/`buf` name a second,
+    independent array (e.g. the `source: &TooDee<T>` argument of a method)."""
+    C, R, L = ctx.int(pfx + "cols"), ctx.int(pfx + "rows"), ctx.int(pfx + "len")
     ctx.assume += [f"(= {L} (* {R} {C}))", f"(= (= {C} 0) (= {R} 0))", f"(<= {L} {ISIZE_MAX})"]
     order = ctx.fields["TooDee"]
-    vals = {"data": Ref(Box_(Slice("parent", "0", L))), "num_rows": Int(R), "num_cols": Int(C)}
+    vals = {"data": Ref(Box_(Slice(buf, "0", L))), "num_rows": Int(R), "num_cols": Int(C)}
     # the Vec field is read through Deref / len models, which accept a Ref to a Slice
-    st = Tup([vals[f] if f != "data" else Slice("parent", "0", L) for f in order])
+    st = Tup([vals[f] if f != "data" else Slice(buf, "0", L) for f in order])
     st.sname = "TooDee"
     return Ref(Box_(st)), dict(C=C, R=R, L=L, S=C)
 
